@@ -51,8 +51,12 @@ func checkC19(p *Program, r *Result) {
 			why := recursionGuard(fn, ci)
 			construct := "recursive call to " + calleeLabel(p, ci)
 			if why == "" {
+				extra := ""
+				if keyMismatch != "" {
+					extra = " — " + keyMismatch
+				}
 				r.violated("C19.a", fname, construct, p.pos(ci.Pos()),
-					"recursion driven by input (type references in the definition) has no visited-set or depth guard; a self- or mutually-referential definition overflows the stack (fatal, not recoverable)")
+					"recursion driven by input (type references in the definition) has no visited-set or depth guard; a self- or mutually-referential definition overflows the stack (fatal, not recoverable)"+extra)
 			} else {
 				r.held("C19.a", fname, construct, p.pos(ci.Pos()), why)
 			}
@@ -80,6 +84,17 @@ func checkC19(p *Program, r *Result) {
 				r.violated("C19.c", funcName(fn), "call "+trimPkg(f.String()), p.pos(ci.Pos()), "non-RE2 regular expression engine may backtrack exponentially on hostile input")
 			}
 		}
+	}
+	// bufio.Scanner stops silently at a token longer than its buffer (64 KiB by default): Err() has to be consulted
+	r.rule("C19.s", "scanner loops consult Err()", 0)
+	nScan := 0
+	for _, fn := range fns {
+		before := len(r.Obls)
+		checkIterErr(p, r, fn, "C19.s", "(*bufio.Scanner).Scan", "(*bufio.Scanner).Err", "scanner.Scan", "scanner.Err", "an over-long line or a read error")
+		nScan += len(r.Obls) - before
+	}
+	if nScan == 0 {
+		r.held("C19.s", "ros1msg", "no bufio.Scanner", "", "the parser splits in memory (strings.Split); no token-size limit applies")
 	}
 	r.rule("C19.l", "per-field state does not survive from one field line to the next", 4)
 	checkPerFieldState(p, r, fns)
@@ -192,7 +207,10 @@ func sameSCC(p *Program, scope map[*ssa.Function]bool, a, b *ssa.Function) bool 
 }
 
 // recursionGuard returns a description of the guard protecting the recursive call, or "".
+var keyMismatch string
+
 func recursionGuard(fn *ssa.Function, ci ssa.CallInstruction) string {
+	keyMismatch = ""
 	args := ci.Common().Args
 	for i, prm := range fn.Params {
 		if i >= len(args) {
@@ -218,6 +236,12 @@ func recursionGuard(fn *ssa.Function, ci ssa.CallInstruction) string {
 			for _, ref := range *prm.Referrers() {
 				lk, ok := ref.(*ssa.Lookup)
 				if !ok || lk.X != ssa.Value(prm) || !instrDominates(lk, upd) {
+					continue
+				}
+				// the key that is tested must be the key that is recorded: a test on the name as spelled and a record
+				// under the resolved name never meet
+				if lk.Index != upd.Key {
+					keyMismatch = "the visited set is tested with " + valueLabel(lk.Index) + " but updated with " + valueLabel(upd.Key) + " (a different value: the name before / after resolution)"
 					continue
 				}
 				if guardReturns(fn, lk, upd) {
